@@ -9,6 +9,7 @@ from menpolint.loader import Project, FuncInfo
 from menpolint import check, report
 
 project = Project()
+PROPS = {json.loads(l)['id']: json.loads(l) for l in open('/verif/properties.jsonl')}
 out = {}
 for i in range(1, 21):
     pid = "C%02d" % i
@@ -23,6 +24,23 @@ for i in range(1, 21):
     A.PATTERN_LOG = None
     for r in res.rules:
         for f in getattr(r, "instance_funcs", []):
+            fns[f.qualname] = f
+    # callers: functions in the property's anchor files that call a function of the core scope (one level)
+    import json as _json
+    from menpolint.calls import CallCtx
+    from menpolint.astutil import calls_in
+    files = set(PROPS[pid]["anchors"]["files"])
+    core = set(fns)
+    for f in project.all_functions():
+        if f.module.relpath not in files or f.qualname in fns:
+            continue
+        ctx = CallCtx(project, f, f.cls)
+        hit = False
+        for k in calls_in(f.node, include_nested=True):
+            for t in ctx.resolve_call(k):
+                if t.func.qualname in core:
+                    hit = True
+        if hit:
             fns[f.qualname] = f
     per = {}
     for q, fi in sorted(fns.items()):
